@@ -11,7 +11,7 @@ RULE = ("seeded sequences of 4-30 tree-building operations (make root / node, ad
 OPTS = [True, False, "copy", "overwrite", "copyover"]
 
 
-def gen_steps(r, nops, md_prob=0.10, cut_opts=(True, False, "copy")):
+def gen_steps(r, nops, md_prob=0.10, cut_opts=(True, False, "copy"), scenario=False):
     """generate a valid-ish sequence, tracking a shadow forest to avoid grafts onto own descendants"""
     steps = []
     parent = {}      # id -> parent id (None for tops)
@@ -56,6 +56,27 @@ def gen_steps(r, nops, md_prob=0.10, cut_opts=(True, False, "copy")):
         return x
 
     new("root")
+    if scenario:
+        # directed: two trees whose roots carry Metadata under overlapping names, an interior node with node-level Metadata of
+        # such a name, and a graft of a branch of the one UNDER an interior node (or the root) of the other with any option —
+        # the configuration in which "the receiving root's entries" and "the attachment node's entries" differ
+        def md(x, name):
+            steps.append({"do": "md", "node": x, "name": name, "content": r.randrange(5)})
+        def add(p, c):
+            steps.append({"do": "add", "parent": p, "child": c}); parent[c] = p; rooted[c] = True
+        A = new("root"); md(A, "m"); md(A, r.choice(["cal", "a_only", ""]))
+        a1 = new("node"); add(A, a1)
+        a2 = new("node"); add(a1, a2)
+        if r.random() < 0.5:
+            md(r.choice([a1, a2]), r.choice(["shared", "m"]))
+        B = new("root"); md(B, "m"); md(B, "shared")
+        if r.random() < 0.3:
+            md(B, "")
+        b1 = new("node"); add(B, b1)
+        b2 = new("node"); add(b1, b2)
+        rv = r.choice([A, a1, a2, a2])
+        steps.append({"do": "graft", "recv": rv, "scion": b1, "opt": r.choice(OPTS)})
+        parent[b1] = rv
     for _ in range(nops):
         c = r.random()
         ids = list(parent)
